@@ -23,7 +23,7 @@ def _k_for(es, extra=0):
 def gen_tasks(tier, seed):
     rng = random.Random(seed)
     tasks = []
-    dags = I.dag_graphs(tier, rng, quick_n=6)
+    dags = I.dag_graphs(tier, rng, quick_n=6, thorough_n5=150)
     for name, es in dags:
         fl = I.dag_flow(es, rng)
         if fl is None:
@@ -77,7 +77,7 @@ def gen_tasks(tier, seed):
         tasks.append({**base, "cls": "kPathCover", "edges": es, "kwargs": {"k": k, "subpath_constraints": [sp]}})
         tasks.append({**base, "cls": "kFlowDecomp", "edges": wedges, "kwargs": {"k": k + 1, "weight_type": "int", "subpath_constraints": [sp], "optimization_options": nog}})
 
-    for name, es in I.digraphs(tier, rng, quick_n=4, thorough_n=40):
+    for name, es in I.digraphs(tier, rng, quick_n=4, thorough_n=120):
         wf = I.walk_flow(es, rng)
         if wf is None:
             continue
